@@ -1,5 +1,6 @@
 import SJ.Props.C08
 import SJ.Proofs.NumLinkParser
+import SJ.Proofs.NumLitParse
 /-!
 # C08 at the level of the parser model
 
@@ -52,6 +53,13 @@ theorem c08p_link_int (p : Model.Num.Parts) (hwf : PartsWF p) :
     (∀ k, Model.Num.convertDefault p = .i64 k ↔ partsOfLiteral (toNumLit p) = .i64 k) :=
   ⟨Proofs.NumLink.convertDefault_u64_iff p hwf, Proofs.NumLink.convertDefault_i64_iff p hwf⟩
 
+/-- **The literal is the specification's reading of the bytes.** `litOf p`, about which every theorem
+    below speaks, is what `Spec.Decimal.NumLit.parse` (the import-free reader of RFC 8259 numbers that
+    also defines the exact value `NumLit.exact` for the correspondence runs) reads off `p.bytes`. -/
+theorem c08p_literal_reading (p : NumParts) (hwf : p.WF = true) :
+    NumLit.parse p.bytes = some (litOf p) :=
+  Proofs.NumLinkParser.parse_bytes p hwf
+
 /-- `-12345.678e9` as the scanner delivers it -/
 def exParts : Model.Num.Parts :=
   ⟨true, [0x31, 0x32, 0x33, 0x34, 0x35], some [0x36, 0x37, 0x38], some (false, [0x39]),
@@ -62,6 +70,7 @@ def exNum : NumParts := ⟨true, [0x31, 0x32, 0x33, 0x34, 0x35], [0x2e, 0x36, 0x
 example : exNum.WF = true ∧ Spec.Canon.partsOf exNum = exParts ∧ litOf exNum = SJ.Props.C08.exLit ∧
     exNum.bytes = [0x2d, 0x31, 0x32, 0x33, 0x34, 0x35, 0x2e, 0x36, 0x37, 0x38, 0x65, 0x39] := by
   refine ⟨by decide, rfl, rfl, rfl⟩
+example : NumLit.parse exNum.bytes = some SJ.Props.C08.exLit := by decide
 example : PartsWF exParts := c08p_scanner_wf exNum (by decide)
 example : Model.Num.convertDefault exParts = .f64 0xc2a674e780df0000 ∧
     floatOfLiteral (toNumLit exParts) = some 0xc2a674e780df0000 := by decide +kernel
